@@ -12,7 +12,7 @@ for f in os.listdir(src):
         if os.path.isfile(os.path.join(src, f)) and os.path.getsize(os.path.join(src, f)) < 400000:
             shutil.copy(os.path.join(src, f), d)
 json.dump({"id": sid, "property": prop, "what": what, "needs_to_manifest": needs, "checks": [prop],
-           "origin": "fresh sub-agent (second round) given only the property text, the one-line ideas of the first-round changes to avoid, and a scratch worktree",
+           "origin": "fresh sub-agent (later round) given only the property text, the one-line ideas of the earlier changes to avoid, and a scratch worktree",
            "ran": "tools/verify_seed.py (apply, build, 19 stock tests, demo with/without) -> verify.json; tools/run_seeded.py (registered check against a scratch worktree with the change) -> result.json"},
           open(os.path.join(d, "meta.json"), "w"), indent=1)
 ok = subprocess.run(["git", "-C", "/repo", "apply", "--check", os.path.join(d, "patch.diff")]).returncode == 0
